@@ -150,11 +150,12 @@ def all_variants(host):
     """-> (variants, skipped).  variant = dict(name, cpu, stubs, expect)."""
     out = []
 
-    def add(name, cpu, stubs=(), fails=(), faults=()):
+    def add(name, cpu, stubs=(), fails=(), faults=(), cdefs=()):
         # faults: persistent partial faults of the AES-NI implementation
         # (--fault=...); the self-test of 'aesni' must fail because of them
+        # cdefs: extra compile-time defines of the library objects
         out.append({'name': name, 'cpu': list(cpu), 'stubs': list(stubs), 'fails': list(fails),
-                    'faults': list(faults),
+                    'faults': list(faults), 'cdefs': list(cdefs),
                     'args': ['--fault=' + ','.join(faults)] if faults else
                             ['--fail-selftest=' + ','.join(fails)] if fails else [],
                     'expect': expected_paths(cpu, stubs, host, fails)})
@@ -192,6 +193,10 @@ def all_variants(host):
     add('build[sse2]-absent[sse2]', BASE + ['X86_SSE2'], ['sse2'])
     add('build[sse42_32]-absent[sse42]', BASE + ['X86_SSE42'], ['sse42'])
     add('build[aesni]-absent[aesni]', BASE + ['X86_AESNI'], ['aesni'])
+    # (b2) the AES-NI code as a compiler without _mm_loadu_si64 gets it (the
+    # build system then adds -DBROKEN_MM_LOADU_SI64: another load sequence)
+    add('full-loadu-workaround', FULL, cdefs=['BROKEN_MM_LOADU_SI64'])
+    add('build[aesni]-loadu-workaround', BASE + ['X86_AESNI'], cdefs=['BROKEN_MM_LOADU_SI64'])
     # (c) the real detectors without CPUID support answer "absent" themselves
     add('full-without-cpuid', [c for c in FULL if c not in BASE])
     # (d) compiled in, the CPU says "present", but the library's own start-up
@@ -324,7 +329,7 @@ def build(ctx, variants):
     # the same CPUSUPPORT_* list and detectors (the failure is a run-time flag)
     allv, first = variants, {}
     for v in allv:
-        first.setdefault((tuple(v['cpu']), tuple(v['stubs'])), v)
+        first.setdefault((tuple(v['cpu']), tuple(v['stubs']), tuple(v.get('cdefs', ()))), v)
     variants = list(first.values())
     for vi, v in enumerate(variants):
         base = b0.base_flags('asan', v['cpu'])        # writes the config header
@@ -336,7 +341,8 @@ def build(ctx, variants):
             src = os.path.join(core.REPO, s)
             if not os.path.exists(src):
                 raise core.Inconclusive('source file missing: ' + src)
-            jobs.append((cache, src, base + core.CPU_CFLAGS.get(s, [])))
+            jobs.append((cache, src, base + core.CPU_CFLAGS.get(s, []) +
+                         ['-D' + d for d in v.get('cdefs', ())]))
             index.append(vi)
         for s in ('c03_accel.c', 'common/refaes.c', 'common/aes_oomhist.c'):
             jobs.append((cache, os.path.join(core.HARNESS, s), gnu))
@@ -350,7 +356,7 @@ def build(ctx, variants):
     for v, e in zip(variants, exes):
         v['exe'] = e
     for v in allv:
-        v['exe'] = first[(tuple(v['cpu']), tuple(v['stubs']))]['exe']
+        v['exe'] = first[(tuple(v['cpu']), tuple(v['stubs']), tuple(v.get('cdefs', ())))]['exe']
     ctx.cov['build'] = {'translation_units_requested': cache.requests,
                         'distinct_after_preprocessing': cache.compiled,
                         'executables': len(variants)}
